@@ -512,8 +512,10 @@ def gen_universe(rng):
             paths.add('/' + '/'.join(chain[:i]))
         paths.add('/' + '/'.join(chain))
     n = rng.randrange(4, 11)
-    while len(paths) < n:
-        depth = 1 if shape == 'flat' else rng.choice([1, 2, 2, 3, 3, 4])
+    for _ in range(60):                           # bounded: a small alphabet may not have n paths
+        if len(paths) >= n:
+            break
+        depth = rng.choice([1, 1, 2]) if shape == 'flat' else rng.choice([1, 2, 2, 3, 3, 4])
         p = '/' + '/'.join(rng.choice(alpha) for _ in range(depth))
         paths.add(p)
         if rng.random() < 0.4 and depth > 1:     # add its parent as an exportable path as well
@@ -526,21 +528,25 @@ def gen_universe(rng):
 def gen_history(rng, universe, length):
     ops = []
     live = set()
-    for _ in range(length):
+    burst = rng.randrange(0, max(2, (len(universe) * 3) // 4))       # fill the tree first, then churn
+    for i in range(length):
         r = rng.random()
-        if live and r < 0.30:
+        if i < burst:
+            r = 0.9
+        if live and r < 0.22:
             p = rng.choice(sorted(live))
             ops.append(['unexport', p])
             live.discard(p)
-        elif r < 0.36:
+        elif r < 0.27:
             p = rng.choice(universe)                      # possibly not exported
             ops.append(['unexport', p])
             live.discard(p)
-        elif live and r < 0.44:
+        elif live and r < 0.35:
             p = rng.choice(sorted(live))                  # export over an existing object
             ops.append(['export', p, rng.choice(KINDS), gen_vals(rng)])
         else:
-            p = rng.choice(universe)
+            dead = [p for p in universe if p not in live]
+            p = rng.choice(dead) if dead and rng.random() < 0.8 else rng.choice(universe)
             ops.append(['export', p, rng.choice(KINDS), gen_vals(rng)])
             live.add(p)
     return ops
@@ -576,7 +582,7 @@ def run_history(ctx, stream, hist, lines, expect, judge=True, extra_every=7):
         # dict order of the table itself (insertion order is what the child order shows)
         lines.append('keys')
         expect.append((stream, hist, step_no, ['keys'], 'keys ' + strs(list(world.h.exports.keys()))))
-        ctx.stat('exported=%d' % min(len(world.exported), 8))
+        ctx.stat('exported=%02d' % min(len(world.exported), 12))
         for qi, path in enumerate(queries):
             for kind in QUERY_KINDS:
                 if kind == 'introspect':
@@ -628,8 +634,21 @@ def compare(ctx, lines, expect):
                          m, impl)
 
 
-def make_hist(universe, ops):
-    return {'universe': universe, 'neighbours': neighbours(universe), 'ops': ops}
+def make_hist(universe, ops, rng=None):
+    """The query set is the universe plus neighbours: all of them for small universes, otherwise the
+    missing ancestors plus a sample of the textual variations."""
+    nb = neighbours(universe)
+    if rng is not None and len(nb) > 6:
+        anc = set()
+        for p in universe:
+            e = elems(p)
+            for i in range(1, len(e)):
+                anc.add('/' + '/'.join(e[:i]))
+        keep = [q for q in nb if q in anc]
+        rest = [q for q in nb if q not in anc]
+        keep += rng.sample(rest, min(len(rest), max(3, len(universe) // 2)))
+        nb = sorted(keep)
+    return {'universe': universe, 'neighbours': nb, 'ops': ops}
 
 
 def enumerated(max_len):
@@ -677,21 +696,21 @@ def run(ctx):
 
     rng = ctx.rng
     # ---- the fixed universe with parents, children, grandchildren, prefix-sharing siblings, the root
-    n = ctx.scale(quick=14, thorough=120)
+    n = ctx.scale(quick=20, thorough=160)
     hs = []
     for i in range(n):
         uni = FIXED_UNIVERSE if i % 2 == 0 else sorted(rng.sample(FIXED_UNIVERSE, rng.randrange(4, 9)) + (['/'] if i % 4 == 1 else []))
         uni = sorted(set(uni))
-        hs.append(make_hist(uni, gen_history(rng, uni, rng.randrange(6, 22))))
+        hs.append(make_hist(uni, gen_history(rng, uni, rng.randrange(6, 22)), rng))
     run_batch(ctx, 'history-fixed-universe', hs)
 
     # ---- random universes
-    n = ctx.scale(quick=26, thorough=260)
+    n = ctx.scale(quick=40, thorough=400)
     hs = []
     for i in range(n):
         uni, shape = gen_universe(rng)
         ctx.stat('shape=' + shape)
-        hs.append(make_hist(uni, gen_history(rng, uni, rng.randrange(4, 26))))
+        hs.append(make_hist(uni, gen_history(rng, uni, rng.randrange(4, 26)), rng))
     run_batch(ctx, 'history-random-universe', hs)
 
     # ---- bounded-exhaustive small histories
